@@ -534,7 +534,7 @@ pub fn gen_token(rng: &mut Rng) -> Token {
         }
         17..=19 => Token::MapNumber(text(rng)),
         20 => Token::MapNumberValueInt(rng.range(-1000, 1000)),
-        21 => Token::MapWrongKey(rng.pick(&["value", "$serde_json::private::Numbe", "$serde_json::private::RawValue", "", "number"]).to_string()),
+        21 => Token::MapWrongKey(rng.pick(&["value", "$serde_json::private::Numbe", "$serde_json::private::RawValue", "", "number", "my::private::Number", "::private::Number", "x$serde_json::private::Number", "$serde_json::private::Number ", "$SERDE_JSON::PRIVATE::NUMBER", "$serde_json::private::Number2"]).to_string()),
         22 => Token::MapEmpty,
         23 => Token::MapKeyError,
         24 => Token::MapValueError,
